@@ -74,6 +74,13 @@ def classify_cmp(cmpres, chain_texts, i):
     if items and items <= {('Property', 'inherited_fields'), ('Link', 'inherited_fields')} \
             and 'reset optionality' in (cmpres.get('own_diff') or ''):
         return 'C02-computed-grandchild-optionality'
+    if items and all(f in ('bases', 'ancestors') for _, f in items) and ' before ' in (cmpres.get('own_diff') or '').lower() \
+            and any(G.same_bases_reordered(chain_texts[k], chain_texts[k + 1]) for k in range(min(i, len(chain_texts) - 1))):
+        return 'C02-reorder-bases'
+    if items and items <= {('Property', 'default'), ('Link', 'default'), ('Property', 'inherited_fields'),
+                           ('Link', 'inherited_fields')} and any(f == 'default' for _, f in items) \
+            and cmpres.get('own_diff') == '' and any('overloaded' in t for t in chain_texts[:i + 1]):
+        return 'C02-drop-overloaded-default'
     if isinstance(cmpres, dict) and 'drop extending' in (cmpres.get('own_diff') or '').lower():
         return 'C02-drop-extending-renamed-base'
     return None
